@@ -50,4 +50,23 @@ CHECKS["C15"] = {
             "and CPython's event order for generators are not modelled; span/capture callbacks enter by coarse contracts "
             "until refined.",
 }
+CHECKS["C05"] = {
+    "text": "truncate_string (cut + flag exactly when cut), process_list_breadth_first (capped prefix in order, unbounded "
+            "quantified loop invariant), process_child_nodes (depth cut), check_var_count/search_function (budget tested "
+            "before each node, at most one entry per node), Node.add_children (children one level deeper) and "
+            "breadth_first_search (FIFO work list: oldest node first, rest then children in order) are proved from source; "
+            "collection_config builds the limits from the action's own config.",
+    "note": "breadth-first order = FIFO work list + children one level below their parent, composed by an argument in "
+            "DESIGN.md (not a mechanised lemma); watch processors still use default limits (not claimed); the wall-clock "
+            "budget is floating point and not decided; list element typing is declared.",
+}
+CHECKS["C06"] = {
+    "text": "Under the assumption that host dunder methods fail with Exception subclasses only, var_modifiers, "
+            "variable_to_string, process_variable, search_function, VariableSetProcessor.process_variable, eval_watch, "
+            "process_capture_variable, _process_frame and collect are each proved to let nothing escape for every host "
+            "value (signals {}); a snapshot action starts from its own empty table and identity cache.",
+    "note": "child discovery may fail (declared signal) and is contained per node in search_function; "
+            "SnapshotActionContext._process_action is verified up to the call of collect() only (solver budget); "
+            "__dict__ of an object is assumed to be an exact dict; protobuf conversion is C08.",
+}
 NOT_APPLICABLE = {}
